@@ -38,6 +38,9 @@ LEVEL_TEXT = (
     "agreement lemmas for mkd/rmd/dele/rnto/stor/appe/retr/list/cwd under exactly the handler's PathConditions (RNTO and "
     "STOR/APPE without further conditions since MemoryPathIO's r+b open and rename were repaired: F06, F07a, F07b, F17 "
     "are `fixed`; their four witnesses are kept as computed cases C18_former_*_agrees and as corpus sessions); "
+    "C18_rename_inside_is_componentwise / C18_rename_sibling_extension_not_inside / C18_rename_sibling_extension_agree - "
+    "rename's 'destination inside source' test is on path components: a sibling whose name extends the source's (d -> d2, "
+    "report -> report.bak), at every depth, is outside, and the in-memory rename to it succeeds and moves the entry as on disk; "
     "C18_fs_backends_equal from the closed obligation same_calls Gen.PathIOTable.table = true; "
     "C18_api_mem_posix_agree_partial / C18_open_matrix_agree - on the decidable domain api_ok (every query, mkdir with "
     "every flag, rmdir/unlink, rename onto a missing destination, open in every mode with every seek/read/write script "
@@ -828,6 +831,10 @@ def classify(cmds, i, pre_tree, rename_from, obs3, trees3):
         if a and b and isinstance(src, list) and isinstance(dparent, list) and b[: len(a)] == a and len(b) > len(a) \
                 and disk_inert and mem[0].startswith("2"):
             return "ftp:rnto:into-own-subtree-memory-loses-subtree"
+        if a and b and src is not None and b[: len(a)] != a and "/".join(b).startswith("/".join(a)) \
+                and mem[0].startswith("4") and pa[0].startswith("2"):
+            # shape: the destination is outside the source by components, its path string starts with the source's
+            return "ftp:rnto:destination-string-extends-source-refused-by-memory"
         if a and a == b and src is None and disk_inert and mem[0].startswith("2") and trees3[0] == pre_tree:
             return "ftp:rnto:same-path-source-gone-memory-says-ok"
     return f"ftp:three-way:{v.lower()}"
@@ -907,7 +914,7 @@ def run_ftp_level(ctx, tmp, thorough, seqs=None):
                     retries["left"] -= 1
                     retries["used"] += 1
                     old = D.STEP_TIMEOUT
-                    D.STEP_TIMEOUT = 45.0
+                    D.STEP_TIMEOUT = 30.0
                     try:
                         rs = [await b.run(FTP_INIT, s) for b in bs]
                     finally:
@@ -1014,7 +1021,12 @@ def correspondence(ctx):
         "operations (h_open/h_seek/h_read/h_write/h_close on two handle slots + every path operation in between: stat/exists/"
         "list/second rb, r+b, ab, wb handle/unlink/rename/mkdir while the first handle is still open; writes below, at and above "
         "the 8 KiB buffer), structured (mode x write script x observer-before-close) + random, REAL PathIO vs REAL AsyncPathIO, "
-        "observation and on-disk tree after every step. Non-trivial = distinct (tree, sequence)."
+        "observation and on-disk tree after every step. Names that are string prefixes / extensions of one another (d, d2, d.bak, "
+        "d_, dd; report, report.bak, repor): every existing file and directory at depths 1-4 renamed to the siblings whose name "
+        "extends / truncates / doubles its own, below such a sibling (missing and existing) and to its true descendants, there "
+        "and back, at API and FTP level; the other verbs on a tree that holds a name next to its extensions; random sessions "
+        "over a pool of mutually extending names. A loopback session with a real-time outcome (timeout, lost connection, early "
+        "end) is repeated once with generous limits before it is judged. Non-trivial = distinct (tree, sequence)."
     )
     tmp = make_tmp()
     try:
